@@ -17,6 +17,10 @@ def enc(pairs):
 def gen_case(rng):
     k = rng.choice([2, 2, 3, 4, 6])
     Ss = sorted(rng.sample(range(50, 900, 10), k))
+    if rng.random() < 0.3:
+        # replicated specimens: several tests at the same stress level with different lives (the usual form of S-N data), in any order
+        Ss = Ss + [rng.choice(Ss) for _ in range(rng.choice([1, 2, 3]))]
+        rng.shuffle(Ss)
     a0 = -rng.choice([0.004, 0.01, 0.02])
     b0 = rng.choice([7.0, 9.0, 12.0])
     sn = []
